@@ -11,8 +11,73 @@ fn w(name: &str, f: impl FnOnce() -> Result<(), String> + std::panic::UnwindSafe
 }
 fn s(x: &str) -> Option<String> { Some(x.to_string()) }
 
+/// JSON members of a key of each family: (required public members, private members)
+fn family(f: &str) -> (Vec<(&'static str, &'static str)>, Vec<(&'static str, &'static str)>) {
+  match f {
+    "EC" => (vec![("crv", "P-256"), ("x", "f83OJ3D2xF1Bg8vub9tLe1gHMzV76e8Tus9uPHvRVEU"), ("y", "x_FEzRu9m36HLN_tue659LNpXW6pCyStikYjKIWI5a0")], vec![("d", "jpsQnnGQmL-YBIffH1136cspYG6-0iY7X1fCE9-E9LI")]),
+    "OKP" => (vec![("crv", "Ed25519"), ("x", "11qYAYKxCrfVS_7TyWQHOg7hcvPapiMlrwIaaPcHURo")], vec![("d", "nWGxne_9WmC6hEr0kuwsxERJxWl7MmkZcDusAxyuf2A")]),
+    "RSA" => (vec![("n", "0vx7agoebGcQ"), ("e", "AQAB")], vec![("d", "X4cTteJY"), ("p", "83i-7IvM"), ("q", "3dfOR9cu"), ("dp", "G4sPXkc6"), ("dq", "s9lAH9fg"), ("qi", "GyM_p6JrX")]),
+    _ => (vec![("k", "GawgguFyGrWKav7AX4VKUg")], vec![]),
+  }
+}
+fn json_of(kty: &str, members: &[(&str, &str)], optional: &[(&str, &str)], kty_last: bool) -> String {
+  let mut parts: Vec<String> = vec![];
+  if !kty_last { parts.push(format!(r#""kty":"{kty}""#)); }
+  for (k, v) in optional.iter().chain(members.iter()) { parts.push(if *k == "key_ops" { format!(r#""{k}":{v}"#) } else { format!(r#""{k}":"{v}""#) }); }
+  if kty_last { parts.push(format!(r#""kty":"{kty}""#)); }
+  format!("{{{}}}", parts.join(","))
+}
+/// coherent JWKs of all four types x every subset of private members x optional members x member order:
+/// projection, is_public and thumbprint behave as C18 says
+fn thumbprint_and_projection_grid() -> Result<(), String> {
+  for fam in ["EC", "OKP", "RSA", "oct"] {
+    let (public, private) = family(fam);
+    let bare: Jwk = serde_json::from_str(&json_of(fam, &public, &[], false)).map_err(|e| format!("{fam} bare: {e}"))?;
+    let thumb = bare.thumbprint_sha256_b64();
+    for mask in 0u32..(1 << private.len()) {
+      let mut members = public.clone();
+      for (i, m) in private.iter().enumerate() { if mask >> i & 1 == 1 { members.push(*m); } }
+      let mut reversed = members.clone(); reversed.reverse();
+      let optional = [("alg", "EdDSA"), ("kid", "some-kid"), ("use", "sig"), ("key_ops", r#"["sign"]"#)];
+      for (what, text) in [("plain", json_of(fam, &members, &[], false)), ("reordered", json_of(fam, &reversed, &[], true)), ("with optional members", json_of(fam, &members, &optional, false))] {
+        let j: Jwk = serde_json::from_str(&text).map_err(|e| format!("{fam} {what}: {e}: {text}"))?;
+        if j.kty() != j.params().kty() { return Err(format!("{fam} {what}: kty {:?} but parameters of {:?}", j.kty(), j.params().kty())); }
+        let has_private = mask != 0 || fam == "oct";
+        if j.is_public() == has_private { return Err(format!("{fam} {what}, private members {mask:b}: is_public() = {}", j.is_public())); }
+        if j.thumbprint_sha256_b64() != thumb { return Err(format!("{fam} {what}, private members {mask:b}: thumbprint differs from the bare public key's")); }
+        match j.to_public() {
+          None => if fam != "oct" { return Err(format!("{fam}: no public projection")); },
+          Some(p) => {
+            if fam == "oct" { return Err("oct key has a public projection".into()); }
+            if !p.is_public() || p.kty() != j.kty() || p.params() != bare.params() { return Err(format!("{fam} {what}, private members {mask:b}: projection is not the bare public key: {}", serde_json::to_string(&p).unwrap())); }
+            if p.to_public().as_ref() != Some(&p) { return Err("projection not idempotent".into()); }
+            if p.thumbprint_sha256_b64() != thumb { return Err("projection changes the thumbprint".into()); }
+            let text = serde_json::to_string(&p).unwrap();
+            for (k, _) in &private { if text.contains(&format!("\"{k}\":")) { return Err(format!("{fam}: projection serialises private member {k}: {text}")); } }
+          }
+        }
+      }
+    }
+  }
+  Ok(())
+}
+/// D15 (open): "the declared key type always matches the family of parameters carried however the JWK was obtained" -
+/// deserialisation takes kty and the (untagged) parameter members independently
+fn deserialised_type_matches_params() -> Result<(), String> {
+  for kty in ["EC", "OKP", "RSA", "oct"] { for fam in ["EC", "OKP", "RSA", "oct"] {
+    let (public, _) = family(fam);
+    let text = json_of(kty, &public, &[], false);
+    if let Ok(j) = serde_json::from_str::<Jwk>(&text) {
+      if j.kty() != j.params().kty() { return Err(format!("{text} is accepted with kty {:?} over parameters of {:?} (is_public() = {})", j.kty(), j.params().kty(), j.is_public())); }
+    }
+  } }
+  Ok(())
+}
+
 fn main() {
   std::panic::set_hook(Box::new(|_| {}));
+  w("jwk_thumbprint_and_projection_grid", thumbprint_and_projection_grid);
+  w("jwk_deserialised_type_matches_params", deserialised_type_matches_params);
   w("jwk_rsa_each_private_member_alone", || {
     let mut base = JwkParamsRsa::new(); base.n = "n".into(); base.e = "e".into();
     let mk = |f: &dyn Fn(&mut JwkParamsRsa)| { let mut p = base.clone(); f(&mut p); p };
